@@ -173,7 +173,7 @@ def _drive_given(rec: Recorder, sub: SubCheck, tier, seed, n, shrink_budget):
     from hypothesis import given
 
     info = {"rounds": 0}
-    for rnd in range(3 if tier == "quick" else 5):
+    for rnd in range(2 if tier == "quick" else 5):
         info["rounds"] = rnd + 1
         state = {"first_fail_t": None, "best": None}
 
@@ -216,7 +216,7 @@ def _drive_machine(rec: Recorder, sub: SubCheck, tier, seed, n, shrink_budget):
     from hypothesis.stateful import run_state_machine_as_test
 
     info = {"rounds": 0}
-    for rnd in range(4):
+    for rnd in range(2 if tier == "quick" else 4):
         info["rounds"] = rnd + 1
         state = {"first_fail_t": None, "best": None}
 
@@ -306,7 +306,7 @@ def main(argv):
         n_total = sub.counts[tier]
         n = max(1, n_total // nshards)
         hseed = seed * 1000 + shard
-        shrink_budget = float(os.environ.get("VP_SHRINK_BUDGET", "25" if tier == "quick" else "240"))
+        shrink_budget = float(os.environ.get("VP_SHRINK_BUDGET", "20" if tier == "quick" else "240"))
         if sub.mode == "enum":
             info = _drive_enum(rec, sub, tier, shard, nshards)
         elif sub.mode == "given":
